@@ -48,6 +48,13 @@ fn apply_dt(d: &DateTime, op: usize, n: u32) -> DateTime {
 }
 
 fn case_date(day: i64, op: usize, n: u32, acc: &mut Acc) {
+    case_date_inner(day, op, n, acc);
+    if crate::props::anchor::hash(&[day as u64, op as u64, n as u64]) % 8 == 0 {
+        crate::props::anchor::values(acc, "month/year arithmetic (purity probe)", &|| json!({"kind": "date", "day": day, "op": op, "n": n}));
+    }
+}
+
+fn case_date_inner(day: i64, op: usize, n: u32, acc: &mut Acc) {
     acc.transitions += 1;
     acc.states += 1;
     let exp = cal::day_add_months(day, months_of(op, n));
@@ -82,6 +89,13 @@ fn case_date(day: i64, op: usize, n: u32, acc: &mut Acc) {
 }
 
 fn case_dt(day: i64, nod: u64, off: i32, op: usize, n: u32, acc: &mut Acc) {
+    case_dt_inner(day, nod, off, op, n, acc);
+    if crate::props::anchor::hash(&[day as u64, nod, off as u64, op as u64, n as u64]) % 8 == 0 {
+        crate::props::anchor::values(acc, "month/year arithmetic (purity probe)", &|| json!({"kind": "dt", "day": day, "nod": nod.to_string(), "off": off, "op": op, "n": n}));
+    }
+}
+
+fn case_dt_inner(day: i64, nod: u64, off: i32, op: usize, n: u32, acc: &mut Acc) {
     // only where the local date equals the UTC date before and after (statement silent otherwise)
     let local = ins::join(day, nod) + off as i128 * ins::NS;
     if ins::split(local).0 != day {
